@@ -11,6 +11,7 @@ package unpackinfo
 //@   tolerates os.Lstat: isNotExist(_err)
 //@   sets $rejected = $rejected || err != nil
 //@   sets $kind = ite(err == nil, header.Typeflag, -1)
+//@   sets $entryPath = ite(err == nil, info.Path, "")
 //@   sets $ndirs = ite(err == nil && header.Typeflag == tar.TypeDir, $ndirs + 1, $ndirs)
 //@   sweep
 //@   pure
